@@ -14,6 +14,8 @@ pub struct Applied {
     pub expect_accept: bool,
     pub former: String,
     pub ctx: &'static str,
+    /// free-form edit: no classification is claimed (used for totality checks only)
+    pub free: bool,
 }
 
 #[derive(Clone, Debug, Default)]
@@ -51,7 +53,13 @@ impl<'a> Printer<'a> {
 
     pub(crate) fn applied(&mut self, op: &'static str, expect_accept: bool, former: impl Into<String>, ctx: &'static str) {
         if let Some(m) = self.mutator.as_mut() {
-            m.applied = Some(Applied { op, expect_accept, former: former.into(), ctx });
+            m.applied = Some(Applied { op, expect_accept, former: former.into(), ctx, free: false });
+        }
+    }
+
+    pub(crate) fn applied_free(&mut self, op: &'static str) {
+        if let Some(m) = self.mutator.as_mut() {
+            m.applied = Some(Applied { op, expect_accept: false, former: "-".into(), ctx: "free-form", free: true });
         }
     }
 
